@@ -24,6 +24,7 @@
 #include <cstring>
 
 #include <vector>
+#include <limits>
 #include <algorithm>
 
 #include "loop.h"
@@ -70,7 +71,13 @@ void EpollLoop::runLoop(Mode mode)
 
     keep_running_ = (mode == Loop::Mode::kForever);
     do {
-        int fds = epoll_wait(epoll_fd_, events.data(), events.size(), getWaitTime());
+        //! epoll_wait() 的超时参数是 int 毫秒。超过 INT_MAX 毫秒（约24.8天）的等待时长直接转 int 会截断，
+        //! 可能变成负数（无限等待）而错过定时器；截到 INT_MAX，醒来后会重新计算
+        int64_t wait_ms = getWaitTime();
+        if (wait_ms > std::numeric_limits<int>::max())
+            wait_ms = std::numeric_limits<int>::max();
+
+        int fds = epoll_wait(epoll_fd_, events.data(), events.size(), static_cast<int>(wait_ms));
 
         RECORD_SCOPE();
         beginLoopProcess();
